@@ -4,7 +4,7 @@ import sys, os, json
 sys.path.insert(0, os.path.dirname(os.path.dirname(os.path.abspath(__file__))))
 from concurrent.futures import ProcessPoolExecutor
 from selftest.mutate import overlay_for, Stale
-from check import run_property
+from check import decide_property as run_property
 
 def one(e):
     try:
